@@ -1,4 +1,5 @@
 import GwbVerif.Properties.C04
+import GwbVerif.Properties.C04Plume
 open Gwb
 #print axioms C04_polygon_loop
 #print axioms C04_spherical_alias
@@ -6,9 +7,39 @@ open Gwb
 #print axioms C04_polygon_exact
 #print axioms C04_boundary_inside
 #print axioms C04_separated_of_integers
+#print axioms C04_plume_covers_iff_lookup
+#print axioms C04_plume_lookup_bracket
+#print axioms C04_plume_head_radius_unused
+#print axioms C04_plume_covers_iff
+#print axioms C04_plume_head
+#print axioms C04_plume_between
+#print axioms C04_plume_below
+#print axioms C04_plume_listed_depth
+#print axioms C04_plume_between_convex
+#print axioms C04_plume_rotation_cyclic
+#print axioms C04_plume_head_inside
+#print axioms C04_plume_head_base
+#print axioms C04_plume_head_closes
+#print axioms C04_plume_laws_toy
+#print axioms C04_plume_laws_real
 #check @C04_polygon_loop
 #check @C04_spherical_alias
 #check @C04_area_covers_iff
 #check @C04_polygon_exact
 #check @C04_boundary_inside
 #check @C04_separated_of_integers
+#check @C04_plume_covers_iff_lookup
+#check @C04_plume_lookup_bracket
+#check @C04_plume_head_radius_unused
+#check @C04_plume_covers_iff
+#check @C04_plume_head
+#check @C04_plume_between
+#check @C04_plume_below
+#check @C04_plume_listed_depth
+#check @C04_plume_between_convex
+#check @C04_plume_rotation_cyclic
+#check @C04_plume_head_inside
+#check @C04_plume_head_base
+#check @C04_plume_head_closes
+#check @C04_plume_laws_toy
+#check @C04_plume_laws_real
